@@ -23,6 +23,11 @@ pub struct Config {
     /// Number of DashMap shards of the concurrent cache (a power of two > 1); None = 4.
     #[serde(default, skip_serializing_if = "Option::is_none")]
     pub shards: Option<usize>,
+    /// thr: threads may be preempted *inside* an insert, while the write lock of the key's
+    /// map shard is held (switch points `insert.in_map*`); everybody else who needs that
+    /// shard is parked by a map probe until the insert leaves the map.
+    #[serde(default, skip_serializing_if = "std::ops::Not::not")]
+    pub wlock_sp: bool,
 }
 
 impl Config {
